@@ -183,7 +183,14 @@ func (e *c19Env) seed() {
 	}
 	c19Must(en.VCreate(c19IdxHalf, distance.Euclidean, 8, 50, distance.Float16, "", nil, nil, nil))
 	for i, id := range []string{"a", "b", "c"} {
-		c19Must(en.VAdd(c19IdxHalf, id, []float32{0.5, float32(i) * 0.25, 0.125, 1}, map[string]any{"tag": "x", "n": float64(i)}))
+		v := []float32{0.5, float32(i) * 0.25, 0.125, 1}
+		if id == "a" {
+			// a component beyond the float16 range (legal JSON, legal float32): the index holds
+			// it as +Inf, and every route that returns this vector must still answer with a
+			// well-formed response
+			v[0] = 70000
+		}
+		c19Must(en.VAdd(c19IdxHalf, id, v, map[string]any{"tag": "x", "n": float64(i)}))
 	}
 	c19Must(en.VLink(c19Idx0, "a", "b", "rel", "inv", 1, map[string]any{"p": "q"}))
 	c19Must(en.VLink(c19Idx0, "a", "c", "rel", "", 0.5, nil))
